@@ -12,9 +12,25 @@ def lean_modules(pid):
             return list(ast.literal_eval(node.value))
     return ['PMV.Props.' + pid]
 
+def regenerate(m):
+    """T2: regenerate every lean/PMV/Gen table from /repo's current source before building, exactly as each check does
+    at run time (the committed copies are only a cache and may stem from another tree)."""
+    sys.path.insert(0, os.path.join(VERIF, 'harness'))
+    import importlib
+    for c in m['checks']:
+        pid = c['property_id']
+        try:
+            mod = importlib.import_module(pid.lower())
+            if hasattr(mod, 'regen'):
+                mod.regen()
+        except Exception as e:            # a broken translator is reported by the check itself, not by setup
+            print('setup: regen of %s failed: %s' % (pid, e))
+
+
 def main():
     m = json.load(open(os.path.join(VERIF, 'MANIFEST.json')))
     bad = 0
+    regenerate(m)
     targets_all = []
     for c in m['checks']:
         pid = c['property_id']
